@@ -16,9 +16,9 @@ def reg(pid, technique, text, note, ref):
 reg("C18",
     "property-based testing: Hypothesis token streams + exhaustive insertion-order permutations vs. a sorted-permutation oracle and a permutation-invariance metamorphic relation",
     "Generated-input exploration: every Start/Empty tag's output attribute list must equal the input items sorted by (ns or '', local), "
-    "other tokens must be the same objects, and the result must not depend on the incoming order; all orders of 6-key colliding sets are enumerated. "
+    "other tokens must be the same objects, and the result must not depend on the incoming order; all orders of 6-key colliding sets are enumerated. Serializer level: trees rendered by HTMLSerializer(alphabetical_attributes=True) together with the other filters and output encodings are read back by the reference lexer; every start tag's attribute names must be in order. "
     "Held on everything explored; not a proof.",
-    "Trusts CPython's sorted()/dict ordering for the oracle; domain = namespaces None or non-empty str (what walkers and Lint allow).",
+    "Trusts CPython's sorted()/dict ordering for the oracle; domain = namespaces None or any str incl. '' with at most one attribute per sort key (ties would make order-independence undecidable).",
     "DESIGN.md §3 C18")
 
 reg("C02",
@@ -32,40 +32,40 @@ reg("C02",
 reg("C14",
     "exhaustive enumeration of the finite reference space against an independent oracle (html.entities.html5 + numeric rules from the standard) + encode/decode round trip over all code points",
     "Bounded-exhaustive: all 2231 names x 17 followers x 5 contexts through the tokenizer (and parseFragment), all special numeric values and overflow samples x 6 spellings x ';'/none x followers; "
-    "the plain numeric space 0..0x110000 (quick: seed-rotated 1/8 slice; thorough: all) batched ~400 per document; reverse direction: every non-surrogate code point entity-encoded under ascii (+ samples of 5 other codecs) and parsed back. "
+    "the plain numeric space 0..0x110000 (quick: seed-rotated 1/8 slice; thorough: all) batched ~400 per document; reverse direction: every non-surrogate code point entity-encoded under ascii (+ samples of 5 other codecs) and parsed back; every code point with a name in the table x 7 follower strings x text/attribute in every tier. "
     "Thorough tier is exhaustive over the stated domain.",
-    "Trusted: html.entities.html5 as the standard's table; numeric rules written from the standard. Known finding: C1 controls cannot be expressed by any reference.",
+    "Trusted: html.entities.html5 as the standard's table; numeric rules written from the standard. Known findings: C1 controls cannot be expressed by any reference; CR is written raw.",
     "DESIGN.md §3 C14")
 
 reg("C20",
     "exhaustive enumeration of all BMP code points in first/later name position + Hypothesis names/comments/public ids x all 64 flag sets, judged by expat and round-trip/injectivity checks",
     "Exhaustive on the BMP sub-domain (65536 code points x 2 positions x element/attribute): expat must accept the coerced name and report it unchanged, legal colon-free names must be returned as they are; "
-    "generated names (astral, U+hex look-alikes, one filter object reused) add fromXmlName(toXmlName(n)) == n and injectivity; comments/public ids over all flag sets. Held on everything explored.",
+    "generated names (astral, U+hex look-alikes, one filter object reused) add fromXmlName(toXmlName(n)) == n (decoded by the same and by a new filter object) and injectivity; comments/public ids over all flag sets. Held on everything explored.",
     "Trusted: expat as the XML parser of reference (XML 1.0 4th-edition names). Known finding: astral name characters are passed through.",
     "DESIGN.md §3 C20")
 
 reg("C13",
     "property-based testing: Hypothesis + enumerated (previous, token, next) triples of walker tokens through the filter, judged by identity-subsequence check and an independent transcription of the standard's optional-tag rules; parse-equivalence round trip on generated conforming documents",
     "Exploration: every triple with an omittable-name tag in the middle over a 160-token alphabet is enumerated (both tiers), other triples at a seed-rotated stride, plus generated balanced/free streams; "
-    "each removed token must be an attribute-less start tag or end tag the standard allows to omit given its neighbours; survivors must be the same objects in order. Conforming documents: filtered and unfiltered serialisations must parse to the same tree.",
+    "each removed token must be an attribute-less start tag or end tag the standard allows to omit given its neighbours; survivors must be the same objects in order. Conforming documents: filtered and unfiltered serialisations must parse to the same tree. Serializer level: the same documents rendered with and without omit_optional_tags under sanitize / strip_whitespace / alphabetical options are read by the reference lexer; every tag missing from the omitted rendering must be omittable between its neighbours in the final markup.",
     "Trusted: vf/ref/optionaltags.py (own transcription of the June-2020 rules); 'no more content in parent' == next token is an end tag or stream end. Two known findings are demanded by the repo's own test data.",
     "DESIGN.md §3 C13")
 
 reg("C03",
     "fuzzing-style property-based testing: Hypothesis bytes/Unicode/markup soup + parameterised pathological depth/length families through every builder/namespacing/document-or-fragment/container/scripting combination; crash oracle + document-skeleton validity predicate",
-    "Exploration: no exception of any type may escape parse()/parseFragment(); documents must have the skeleton doctype?/comments/html(head, body|frameset). ~70 nesting units x prefixes x closers at N up to 3500 (thorough 20000) reach depth-related failures; a watchdog turns hangs into 'inconclusive'. Held on everything explored.",
-    "Termination itself is not decided. Known finding: the standard's own algorithm can put a reconstructed formatting element after frameset under html (classifier: the reference tree has the same anomaly).",
+    "Exploration: no exception of any type may escape parse()/parseFragment(); documents must have the skeleton doctype?/comments/html(head, body|frameset). ~70 nesting units x prefixes x closers at N up to 3500 (thorough 20000) reach depth-related failures; a watchdog (repeating timer) hands hangs to a dispatch-counting parse that proves tree-constructor livelocks deterministically (total count and 5000 dispatches without input consumption); other hangs are 'inconclusive'. Held on everything explored.",
+    "Termination is decided for tree-constructor livelocks only. Known finding: the standard's own algorithm can put a reconstructed formatting element after frameset under html (classifier: the reference tree has the same anomaly).",
     "DESIGN.md §3 C03")
 
 reg("C04",
     "differential property-based testing across tree builders: generated markup soup parsed by dom / etree / etree-fullTree x namespaceHTMLElements on/off; directly traversed abstract trees must be pairwise equal",
-    "Exploration: 16 biased soup campaigns (table/foster, formatting/adoption, foreign, select, fragments in 45 contexts); all six builder configurations must yield the same flat abstract tree (namespace None == XHTML when namespacing is off; root-element form == html subtree). Non-triviality is measured with the reference tree constructor's trace. Held on everything explored.",
+    "Exploration: 16 biased soup campaigns (table/foster, formatting/adoption, foreign, select, fragments in 45 contexts); all six builder configurations must yield the same flat abstract tree (namespace None == XHTML when namespacing is off; root-element form == html subtree, requested with fullTree=False spelled out and left out); two shards run long sequences over formatting elements whose attributes are written in different orders. Non-triviality is measured with the reference tree constructor's trace. Held on everything explored.",
     "Trees are observed by own traversal (vf/obs.py), not by html5lib walkers. Two known findings are limitations of xml.dom.minidom (colon-bearing attribute / doctype names), modelled exactly by obs.minidom_colon_model.",
     "DESIGN.md §3 C04")
 
 reg("C16",
     "differential property-based testing strict vs. non-strict parsing over generated markup soup and all truncations (EOF sites) of generated documents, plus a validity predicate over every recorded error",
-    "Exploration: strict mode must raise exactly html5parser.ParseError iff the non-strict parse recorded an error, with the first error's formatted message; every recorded error needs a template in constants.E that formats with its variables and a position inside the input; conforming generated documents must record none. Evidence lists the error codes reached (113 of 132). Held on everything explored.",
+    "Exploration: strict mode must raise exactly html5parser.ParseError iff the non-strict parse recorded an error, with the first error's formatted message; every recorded error needs a template in constants.E that formats with its variables and a position inside the input; conforming generated documents must record none in four spellings (explicit, optional tags omitted by the reference rules, two with '/>' / other quoting / upper case); (first, input) pairs on one strict and one non-strict parser object must give the second input the outcome of new objects. Evidence lists the error codes reached (115 of 132; the rest have no call site). Held on everything explored.",
     "Positions are judged against the newline-normalised input. Three defects found by this check were repaired in /repo (fix: commits).",
     "DESIGN.md §3 C16")
 
@@ -96,14 +96,14 @@ reg("C01",
 
 reg("C07",
     "round-trip property-based testing: abstract trees generated from a grammar of the HTML content model -> html5lib tree -> HTMLSerializer under generated option records / walkers / output encodings -> re-parse; the re-parsed tree must equal the generated tree",
-    "Exploration: conforming documents (tables, lists, forms, select, ruby, pre/textarea, raw-text elements, SVG/MathML islands, comments, markup-significant and non-ASCII text and attribute values) x the cross product of 10 serializer options x 8 encodings x 2 walkers; recorded serializer defects are accepted only when the re-parsed tree equals the exactly predicted wrong tree (expected-difference transformers). Held on everything explored.",
+    "Exploration: conforming documents (tables, lists, forms, select, ruby, pre/textarea, raw-text elements, SVG/MathML islands, comments, markup-significant and non-ASCII text and attribute values) x the cross product of 10 serializer options x 8 encodings x 2 walkers x {new serializer object, object used before with another encoding}; recorded serializer defects are accepted only when the re-parsed tree equals the exactly predicted wrong tree (expected-difference transformers). Held on everything explored.",
     "The generator defines 'conforming' (content model encoded in vf/gen/conforming.py; doctype always present); trees that html5lib does not parse back from our explicit writer are excluded and counted. 6 recorded findings, 2 repaired defects.",
     "DESIGN.md §3 C07")
 
 reg("C17",
     "property-based testing against an independent whitespace-collapse model + idempotence law, over etree and dom walker streams of whitespace-rich generated markup",
-    "Exploration: streams from trees with all five ASCII whitespace characters, non-ASCII spaces, character references to whitespace and nested preserve elements; text is compared group-wise (maximal runs of text tokens) with the model: collapsed outside pre/textarea/raw-text elements, identical inside, non-text tokens identical, F(F(x)) == F(x). Held on everything explored.",
-    "Text inside noscript/title/plaintext/listing and foreign namesakes is not judged. Known finding: per-token collapsing leaves one space per token when a run is split across tokens (modelled exactly).",
+    "Exploration: streams from trees with all five ASCII whitespace characters, non-ASCII spaces, character references to whitespace and nested preserve elements; text is compared group-wise (maximal runs of text tokens) with the model: collapsed outside pre/textarea/raw-text elements, identical inside, non-text tokens identical, F(F(x)) == F(x); the filter on the live walker must equal the filter on a copy of its tokens and leave a second walk unchanged. Held on everything explored.",
+    "Raw-text elements = constants.rcdataElements of the pinned tree (incl. noscript); text inside title/plaintext/listing and foreign namesakes is not judged. Known finding: per-token collapsing leaves one space per token when a run is split across tokens (modelled exactly).",
     "DESIGN.md §3 C17")
 
 reg("C06",
@@ -120,25 +120,25 @@ reg("C09",
 
 reg("C10",
     "round-trip property-based testing for mutation XSS: generated mXSS-shaped markup -> parse -> serialize(sanitize=True) under generated options -> re-parse as document/fragment (20 contexts, scripting on/off) -> allow-list predicate on the re-parsed tree + element-origin check",
-    "Exploration: raw-text/RCDATA elements with markup-looking text, attribute values carrying terminators, foreign content and integration points, table/select/formatting misnesting, noscript, comments, CDATA, combined with the C09 attack vocabulary; serializer options incl. quoting modes, omission, escape flags, whitespace stripping. The re-parsed tree must contain no comment, only allow-listed elements/attributes that correspond to let-through tags, and URI/style values that satisfy the C09 predicate. Held on everything explored.",
+    "Exploration: raw-text/RCDATA elements with markup-looking text, attribute values carrying terminators, foreign content and integration points, table/select/formatting misnesting, noscript, comments, CDATA, combined with the C09 attack vocabulary; serializer options incl. quoting modes, omission, escape flags, whitespace stripping, output encoding and inject_meta_charset; doctype identifiers and control characters before on* names in attribute values are part of the vocabulary. The re-parsed tree must contain no comment, only allow-listed elements/attributes that correspond to let-through tags, and URI/style values that satisfy the C09 predicate. Held on everything explored.",
     "Default allow-lists (the serializer's sanitize option offers no others). Two known findings stem from the serializer dropping namespaces (element and attribute namespace shift), each with an exact classifier.",
     "DESIGN.md §3 C10")
 
 reg("C08",
     "round trip through an independent reference lexer (vf/ref/tokenizer.py) driven by the known element context: serializer output over walker streams of trees parsed from arbitrary generated markup must read back as exactly the given tokens, or a serialization error must have been reported (and raised in strict mode)",
-    "Exploration: streams from soup-parsed trees (documents, fragments, both scripting flags, etree/dom walkers) x generated serializer option records with optional-tag omission off; tags, attribute names/values, concatenated text, comments and doctype fields are compared token by token. Recorded serializer defects are attributed by feature classifiers on the given stream (named triggers), everything else is a violation. Held on everything explored.",
-    "Trusted: the reference tokenizer (C02). 9 recorded findings (raw-text handling by element name only, plaintext, namespaced attribute prefixes, boolean minimisation, doctype quoting, element children of RCDATA elements...). One defect repaired.",
+    "Exploration: streams from soup-parsed trees (documents, fragments, both scripting flags, etree/dom walkers) x generated serializer option records (incl. output encoding and inject_meta_charset, whose designed rewrite is applied to the expectation by the tree-level model shared with C15) with optional-tag omission off; tags, attribute names/values, concatenated text, comments and doctype fields are compared token by token. Recorded serializer defects are attributed by feature classifiers on the given stream (named triggers), everything else is a violation. Held on everything explored.",
+    "Trusted: the reference tokenizer (C02). 13 recorded findings (raw-text handling by element name only, plaintext, namespaced attribute prefixes, boolean minimisation, doctype quoting, element children of RCDATA elements, and under an output encoding: lone surrogates, C1 controls, raw text; CR written raw...). One defect repaired.",
     "DESIGN.md §3 C08")
 
 reg("C15",
     "model-based round-trip property-based testing: conforming documents with generated <meta> declarations serialized under 40 output labels; the bytes parsed with no hints must report the label's encoding and give the tree predicted by a tree-level model of the meta injection applied to the unencoded serialization's tree",
-    "Exploration: documents with 0..3 extra meta elements (charset / http-equiv in all spellings, in head and body), > 1024 bytes before head, non-ASCII and astral text/attribute values x every label in a 40-label list that codecs and webencodings both accept x omission on/off x walker. documentEncoding must be the label's canonical encoding, the tree must equal model(tree of the unencoded serialization), and a declaration must sit inside head. Held on everything explored.",
+    "Exploration: documents with 0..3 extra meta elements (charset / http-equiv in all spellings, in head and body), look-alike declarations inside script/style text, > 1024 bytes before head, non-ASCII and astral text/attribute values x every label in a 40-label list that codecs and webencodings both accept x omission on/off x walker. documentEncoding must be the label's canonical encoding, the tree must equal model(tree of the unencoded serialization), and a declaration must sit inside head. Held on everything explored.",
     "Comments and script/style text are constructed inside the codec's repertoire (no character references there). UTF-16 output is a recorded finding; noscript raw text (C07) is excluded by construction and counted.",
     "DESIGN.md §3 C15")
 
 reg("C12",
     "model-based stateful testing (Hypothesis RuleBasedStateMachine) of object reuse: generated histories of parse / parseFragment / strict-mode aborts / faulting input sources / serialize on shared objects and read-level thread schedules of independent parsers, compared step by step with brand-new objects and, for a sample, with a fresh interpreter",
-    "Exploration: histories of <= 8 (thorough 12) steps over shared HTMLParser(etree), HTMLParser(dom), HTMLParser(strict) and four HTMLSerializer objects; aborts by ParseError at the first error and by IOError injected after k reads; 'threads' steps run 2-3 shared parsers concurrently with sources gated so that the harness releases one read at a time along a generated schedule. After every step the result must equal that of brand-new objects. Held on everything explored.",
+    "Exploration: histories of <= 8 (thorough 12) steps over shared HTMLParser(etree), HTMLParser(etree root-element form), HTMLParser(dom), HTMLParser(strict) and four HTMLSerializer objects; documents include error-free ones over the stateful spots and such documents cut open plus one offending token, so strict aborts happen at varied error sites; aborts by ParseError at the first error and by IOError injected after k reads; 'threads' steps run 2-3 shared parsers concurrently with sources gated so that the harness releases one read at a time along a generated schedule. After every step the result must equal that of brand-new objects; a sample of calls is re-computed in one freshly forked interpreter state per call (process-wide caches) and a larger batch in one fresh interpreter. Held on everything explored.",
     "Thread interleavings are owned at read() granularity only; preemptive races inside a token are out of reach. One defect (phase-object state leaking after an aborted parse) repaired.",
     "DESIGN.md §3 C12")
 
